@@ -912,6 +912,18 @@ def grid_helper_evaluator(repo: Repo):
         def __init__(self, size, trues):
             self.size, self.trues = size, trues
 
+        def le_call(self, method, args, kws):
+            if method == "logical_not" and not args:
+                return Mask(self.size, self.size - self.trues)
+            if method == "nonzero" and not args:
+                return (Idx(self.trues),) if kws.get("as_tuple") else Idx(self.trues)
+            if method in ("squeeze", "flatten", "reshape", "view", "bool", "to"):
+                return self
+            raise NotEval(method)
+
+        def le_subscript(self, idx):
+            return self  # mask[:, 0] of an (n, 1) mask
+
     class Pts(Model):
         def __init__(self, rows):
             self.rows = rows
@@ -982,6 +994,8 @@ def grid_helper_evaluator(repo: Repo):
                 return Mask(args[0].size, args[0].size - args[0].trues)
             if name == "torch.where" and args and len(args) == 1 and isinstance(args[0], Mask):
                 return (Idx(args[0].trues),)
+            if name == "torch.nonzero" and args and isinstance(args[0], Mask):
+                return (Idx(args[0].trues),) if kws.get("as_tuple") else Idx(args[0].trues)
             if name in ("_random_points_inside", "_random_points_boundary") and args is not None:
                 # contract of the per-row rejection loops (R-C02-3): exactly the requested number of rows
                 m = args[3] if len(args) > 3 else kws.get("n")
@@ -1110,7 +1124,7 @@ def r15_quota_loops(repo: Repo, rep):
         funcs = list(m.functions.values()) + [fi for ci in m.classes.values() for fi in ci.methods.values()]
         for fi in funcs:
             loops = [w for w in ast.walk(fi.node) if isinstance(w, ast.While)]
-            if not loops:
+            if not loops and not any(isinstance(w, ast.Break) for w in ast.walk(fi.node)):
                 continue
             tmp = single_defs(fi.node)
             params = set(fi.params)
@@ -1119,6 +1133,30 @@ def r15_quota_loops(repo: Repo, rep):
             def quota_bound(e):
                 t = dump(deref(e, tmp))
                 return t in params and t in ("n", "n_points") or t in ("self.n_points", "n", "len(self)") or (isinstance(e, ast.Name) and e.id == "n")
+            # a quota loop written as a bounded `for`: `for _ in range(K): if <quota met>: break ...` gives up after K rounds
+            for lp in [w for w in ast.walk(fi.node) if isinstance(w, ast.For)]:
+                if not (isinstance(lp.iter, ast.Call) and dump(lp.iter.func) == "range"):
+                    continue
+                own_breaks = []
+                for b in ast.walk(lp):
+                    if isinstance(b, ast.Break):
+                        q = pm.get(id(b))
+                        while q is not None and not isinstance(q, (ast.While, ast.For)):
+                            q = pm.get(id(q))
+                        if q is lp:
+                            own_breaks.append(b)
+                for b in own_breaks:
+                    g = pm.get(id(b))
+                    if not isinstance(g, ast.If):
+                        continue
+                    t = g.test
+                    met = (isinstance(t, ast.Call) and dump(t.func) in ("all", "torch.all")) or \
+                          (isinstance(t, ast.Compare) and len(t.ops) == 1 and isinstance(t.ops[0], (ast.GtE, ast.Gt, ast.Eq)) and quota_bound(t.comparators[0]))
+                    if met and not any(isinstance(x, ast.Name) and x.id == dump(lp.target) for x in ast.walk(t)):
+                        n_loops += 1
+                        rep.saw(fi)
+                        rep.violation(R, fi.site(lp), fi.fq, f"the rounds continue until `{dump(t)[:50]}` holds", f"at most {dump(lp.iter)[:40]} rounds: afterwards the rows still missing are returned as they are (zeros / fewer rows)",
+                                      f"bounded rounds {dump(lp.iter)[:40]} with quota break")
 
             for w in loops:
                 test = w.test
